@@ -828,6 +828,12 @@ class Lowerer:
                     return E('var', self._local(d if d.get('id') else rd), loc=loc, ty=ty)
                 return E('var', q, loc=loc, ty=ty, raw=n)
             q = self.tu.qual.get(rd.get('id')) or rd.get('name', '?')
+            if rk == 'CXXMethodDecl' and self.tu.by_id.get(rd.get('id'), {}).get('storageClass') != 'static':
+                # a non-static member function named as a value (&Class::method; callees of calls do not come this way): the
+                # overload is the one whose type this is
+                sig = (rd.get('type') or {}).get('qualType', ty or '')
+                inside = sig[sig.find('(') + 1: sig.rfind(')')].strip() if '(' in sig else ''
+                return E('memfn', q, 0 if inside in ('', 'void') else inside.count(',') + 1, loc=loc, ty=ty, raw=n)
             return E('var', q, loc=loc, ty=ty, raw=n)
         if k == 'MemberExpr':
             base = self.expr(inner[0]) if inner else E('this', loc=loc)
@@ -848,6 +854,8 @@ class Lowerer:
             if op == '&':
                 if sub.k == 'deref':
                     return sub.a[0]
+                if sub.k == 'memfn':
+                    return sub                   # &Class::method is the pointer to member itself
                 return E('addr', sub, loc=loc, ty=ty)
             if op == '*':
                 if sub.k == 'addr':
@@ -872,6 +880,11 @@ class Lowerer:
             callee = inner[0]
             while callee.get('kind') in TRANSPARENT or callee.get('kind') == 'ImplicitCastExpr':
                 callee = callee['inner'][-1]
+            if callee.get('kind') == 'BinaryOperator' and callee.get('opcode') in ('.*', '->*'):
+                # (object.*pointer)(args): a call named '.*' whose first argument is the pointer to member
+                obj = self.expr(callee['inner'][0])
+                args = [self.expr(callee['inner'][1])] + [self.expr(a) for a in inner[1:] if a.get('kind') != 'CXXDefaultArgExpr']
+                return E('call', '.*', obj, args, loc=loc, ty=ty, raw=n)
             name = self._callee_name(callee)
             recv = self.expr(callee['inner'][0]) if callee.get('kind') == 'MemberExpr' and callee.get('inner') else E('this', loc=loc)
             if callee.get('kind') == 'MemberExpr' and callee.get('isArrow'):
